@@ -261,3 +261,433 @@ Proof.
       * intros Hlt. replace (a + S m)%nat with (S a + m)%nat by lia. apply Hgt. lia.
     + exists 0%nat. split; [lia|]. split; [reflexivity|]. split; [intros; lia|]. intros _. rewrite Nat.add_0_r. exact E.
 Qed.
+
+(* a strictly increasing list of points of the parent's graph with no parent knot strictly between consecutive
+   points refines the parent *)
+Definition gapP (xs : list R) (a b : R) : Prop := a < b /\ forall k, (k < length xs)%nat -> ~ (a < nth k xs 0 < b).
+Definition onG (xs ys : list R) (x v : R) : Prop :=
+  nth 0 xs 0 <= x <= last xs 0 /\ @s_interpolate RNum (xs, ys) x = Ok (Some v).
+
+Lemma graph_refines (xs ys xs' ys' : list R) :
+  strictly_increasing xs -> length ys = length xs -> xs <> [] ->
+  adj (gapP xs) xs' -> Forall2 (onG xs ys) xs' ys' -> (2 <= length xs')%nat -> refines xs ys xs' ys'.
+Proof.
+  intros Hs Hlen Hne Hadj HG H2. destruct (forall2_nth _ _ _ HG) as [Hl' HGn].
+  split; [intros i Hi; apply (adj_nth _ _ Hadj i Hi)|]. split; [exact Hl'|]. split; [exact H2|].
+  intros i Hi. destruct (adj_nth _ _ Hadj i Hi) as [Hab Hgap].
+  destruct (HGn i ltac:(lia)) as [[Ha0 Ha1] Ea]. destruct (HGn (S i) Hi) as [[Hb0 Hb1] Eb].
+  set (a := nth i xs' 0) in *. set (b := nth (S i) xs' 0) in *.
+  rewrite last_nth0 in Ha1, Hb1 by exact Hne.
+  assert (Hpos : (0 < length xs)%nat) by (destruct xs; [congruence | cbn; lia]).
+  destruct (cb_spec xs Hs b) as (A & B & C). set (c := count_below Rlt_bool xs b) in *.
+  assert (Hc1 : (1 <= c)%nat).
+  { destruct c as [|c']; [|lia]. pose proof (C 0%nat ltac:(lia) Hpos). lra. }
+  assert (Hc2 : (c < length xs)%nat).
+  { destruct (Nat.eq_dec c (length xs)) as [E|N]; [|lia]. pose proof (B (length xs - 1)%nat ltac:(lia)). lra. }
+  exists (c - 1)%nat. replace (S (c - 1)) with c by lia.
+  pose proof (B (c - 1)%nat ltac:(lia)) as Hjb. pose proof (C c ltac:(lia) Hc2) as Hbc.
+  assert (Hja : nth (c - 1) xs 0 <= a).
+  { destruct (Rle_dec (nth (c - 1) xs 0) a) as [H|H]; [exact H|]. exfalso. apply (Hgap (c - 1)%nat ltac:(lia)). lra. }
+  split; [exact Hc2|]. split; [exact Hja|]. split; [exact Hbc|].
+  pose proof (eval_seg xs ys Hs Hlen (c - 1) a) as Pa. replace (S (c - 1)) with c in Pa by lia.
+  pose proof (eval_seg xs ys Hs Hlen (c - 1) b) as Pb. replace (S (c - 1)) with c in Pb by lia.
+  rewrite Pa in Ea by (try exact Hc2; lra). rewrite Pb in Eb by (try exact Hc2; lra).
+  inversion Ea. inversion Eb. split; reflexivity.
+Qed.
+
+(* every point of the domain has a value *)
+Lemma domain_value (xs ys : list R) x : strictly_increasing xs -> length ys = length xs -> xs <> [] ->
+  nth 0 xs 0 <= x <= last xs 0 -> exists v, @s_interpolate RNum (xs, ys) x = Ok (Some v).
+Proof.
+  intros Hs Hlen Hne Hx. destruct (locate xs Hs x Hne Hx) as [(k & Hk & ->) | (j & Hj & Hb & _ & _)].
+  - eexists. apply eval_knot; assumption.
+  - eexists. apply (eval_seg xs ys Hs Hlen j x Hj). lra.
+Qed.
+
+(* a window of consecutive knots: strictly increasing, nothing strictly between, on the graph *)
+Lemma wnd_adj (xs : list R) : strictly_increasing xs -> forall n a, (a + n <= length xs)%nat -> adj (gapP xs) (wnd xs a n).
+Proof.
+  intros Hs. induction n as [|n IH]; intros a Ha; [constructor|].
+  rewrite wnd_S. destruct n as [|n]; [constructor|]. rewrite wnd_S. constructor.
+  - split; [apply Hs; lia|]. intros k Hk [H1 H2].
+    destruct (Nat.le_gt_cases k a) as [Hka | Hka].
+    + pose proof (sinc_le xs Hs k a Hka ltac:(lia)). lra.
+    + pose proof (sinc_le xs Hs (S a) k ltac:(lia) Hk). lra.
+  - rewrite <- wnd_S. apply IH. lia.
+Qed.
+
+Lemma wnd_onG (xs ys : list R) : strictly_increasing xs -> length ys = length xs ->
+  forall n a, (a + n <= length xs)%nat -> Forall2 (onG xs ys) (wnd xs a n) (wnd ys a n).
+Proof.
+  intros Hs Hlen. induction n as [|n IH]; intros a Ha; [constructor|].
+  rewrite !wnd_S. constructor; [|apply IH; lia].
+  assert (Hne : xs <> []) by (destruct xs; [cbn in Ha; lia | discriminate]).
+  split; [|apply eval_knot; [exact Hs | exact Hlen | lia]].
+  rewrite last_nth0 by exact Hne. split; apply sinc_le; try exact Hs; lia.
+Qed.
+
+(* ---- Series1::between ---- *)
+Lemma adj_sinc xs l : adj (gapP xs) l -> strictly_increasing l.
+Proof. intros H i Hi. apply (adj_nth _ _ H i Hi). Qed.
+
+Lemma unwrap_dd_ok (X Y : list R) : strictly_increasing X -> @unwrap_dd RNum X Y = Ok (X, Y).
+Proof.
+  intros H. unfold unwrap_dd. destruct (dd_try_from_spec X) as (A & _ & _). rewrite (A (sinc_valid X H)). reflexivity.
+Qed.
+
+Section Between.
+  Variables xs ys : list R.
+  Hypothesis Hs : strictly_increasing xs.
+  Hypothesis Hlen : length ys = length xs.
+  Hypothesis Hne : xs <> [].
+  Variables x0 x1 : R.
+  Hypothesis H0 : nth 0 xs 0 <= x0.
+  Hypothesis H01 : x0 < x1.
+  Hypothesis H1 : x1 <= last xs 0.
+
+  Definition finish (hx hy mx my : list R) : res (@series RNum) :=
+    match hx ++ mx with
+    | [] => Panic
+    | _ :: _ =>
+        if Rlt_bool (last (hx ++ mx) 0) x1 then
+          match @opt_or_nan RNum (@s_interpolate RNum (xs, ys) x1) with
+          | Ok v => @unwrap_dd RNum ((hx ++ mx) ++ [x1]) ((hy ++ my) ++ [v])
+          | Err => Err | Panic => Panic
+          end
+        else @unwrap_dd RNum (hx ++ mx) (hy ++ my)
+    end.
+
+  (* the shape of the result: an optional interpolated head, the window of knots in [x0, x1], an optional
+     interpolated tail *)
+  Record shape (X Y : list R) : Prop := {
+    sh_adj : adj (gapP xs) X;
+    sh_graph : Forall2 (onG xs ys) X Y;
+    sh_first : nth 0 X 0 = x0;
+    sh_last : last X 0 = x1;
+    sh_two : (2 <= length X)%nat }.
+
+  Lemma last_app_ne (l1 l2 : list R) : l2 <> [] -> last (l1 ++ l2) 0 = last l2 0.
+  Proof.
+    intros H. induction l1 as [|a l1 IH]; [reflexivity|]. cbn [app]. destruct (l1 ++ l2) eqn:E; [|exact IH].
+    destruct l1; [cbn in E; congruence | discriminate].
+  Qed.
+
+  Lemma finish_ok (hx hy : list R) (i m : nat) :
+    let X1 := hx ++ wnd xs i m in let Y1 := hy ++ wnd ys i m in
+    (i + m <= length xs)%nat ->
+    adj (gapP xs) X1 -> Forall2 (onG xs ys) X1 Y1 -> X1 <> [] -> nth 0 X1 0 = x0 ->
+    (forall e, In e X1 -> e <= x1) ->
+    (forall k, (k < i + m)%nat -> nth k xs 0 <= last X1 0) ->
+    (forall k, (i + m <= k)%nat -> (k < length xs)%nat -> x1 < nth k xs 0) ->
+    exists X Y, finish hx hy (wnd xs i m) (wnd ys i m) = Ok (X, Y) /\ shape X Y /\
+      ((X = X1 /\ Y = Y1 /\ last X1 0 = x1) \/
+       (exists v, X = X1 ++ [x1] /\ Y = Y1 ++ [v] /\ last X1 0 < x1 /\ @s_interpolate RNum (xs, ys) x1 = Ok (Some v))).
+  Proof.
+    intros X1 Y1 Him Hadj HG HneX Hfirst Hle Hbelow Habove. unfold finish. fold X1 Y1.
+    destruct X1 as [|e0 rest] eqn:EX; [congruence|]. rewrite <- EX in *.
+    assert (Hlast_in : In (last X1 0) X1).
+    { rewrite EX. clear. revert e0. induction rest as [|b r IH]; intros e0; [left; reflexivity|]. right. apply IH. }
+    destruct (Rlt_bool (last X1 0) x1) eqn:El; rbool.
+    - (* the last retained knot is below x1: append the interpolated end *)
+      destruct (domain_value xs ys x1 Hs Hlen Hne ltac:(lra)) as [v Ev]. rewrite Ev. cbn [opt_or_nan].
+      assert (Hadj2 : adj (gapP xs) (X1 ++ [x1])).
+      { apply adj_app; [exact Hadj | constructor|]. right. right. cbn [hd]. split; [exact El|].
+        intros k Hk [Ha Hb]. destruct (Nat.lt_ge_cases k (i + m)) as [Hlt | Hge].
+        - pose proof (Hbelow k Hlt). lra.
+        - pose proof (Habove k Hge Hk). lra. }
+      rewrite (unwrap_dd_ok _ _ (adj_sinc _ _ Hadj2)). exists (X1 ++ [x1]), (Y1 ++ [v]). split; [reflexivity|]. split.
+      + constructor.
+        * exact Hadj2.
+        * apply Forall2_app; [exact HG|]. constructor; [|constructor]. split; [lra | exact Ev].
+        * rewrite EX. cbn [app nth]. rewrite EX in Hfirst. exact Hfirst.
+        * apply last_last.
+        * rewrite app_length. cbn [length]. rewrite EX. cbn [length]. lia.
+      + right. exists v. repeat split; try reflexivity; assumption.
+    - (* the last retained knot is x1 itself *)
+      assert (Elast : last X1 0 = x1) by (pose proof (Hle _ Hlast_in); lra).
+      rewrite (unwrap_dd_ok _ _ (adj_sinc _ _ Hadj)). exists X1, Y1. split; [reflexivity|]. split.
+      + constructor; try assumption.
+        destruct rest as [|e1 rest']; [|rewrite EX; cbn [length]; lia].
+        exfalso. rewrite EX in Elast, Hfirst. cbn in Elast, Hfirst. lra.
+      + left. repeat split; try reflexivity. exact Elast.
+  Qed.
+End Between.
+
+Section Between2.
+  Variables xs ys : list R.
+  Hypothesis Hs : strictly_increasing xs.
+  Hypothesis Hlen : length ys = length xs.
+  Hypothesis Hne : xs <> [].
+  Variables x0 x1 : R.
+  Hypothesis H0 : nth 0 xs 0 <= x0.
+  Hypothesis H01 : x0 < x1.
+  Hypothesis H1 : x1 <= last xs 0.
+
+  Lemma in_wnd e l a n : In e (wnd l a n) -> exists k, (a <= k < a + n)%nat /\ e = nth k l 0.
+  Proof. unfold wnd. rewrite in_map_iff. intros (k & <- & Hk). apply in_seq in Hk. exists k. split; [lia | reflexivity]. Qed.
+
+  (* explicit form: which head, which window, which tail *)
+  Theorem between_form :
+    exists i m hx hy X Y,
+      @s_between RNum (xs, ys) x0 x1 = Ok (X, Y) /\ shape xs ys x0 x1 X Y /\ (i + m <= length xs)%nat /\
+      ((hx = [] /\ hy = [] /\ (i < length xs)%nat /\ nth i xs 0 = x0) \/
+       (exists v0, hx = [x0] /\ hy = [v0] /\ ~ In x0 xs /\ i = count_below Rlt_bool xs x0 /\ (1 <= i < length xs)%nat /\
+                   nth (i - 1) xs 0 < x0 < nth i xs 0 /\ v0 = ell xs ys (i - 1) x0)) /\
+      ((X = hx ++ wnd xs i m /\ Y = hy ++ wnd ys i m /\ (1 <= m)%nat /\ nth (i + m - 1) xs 0 = x1) \/
+       (exists v1, X = (hx ++ wnd xs i m) ++ [x1] /\ Y = (hy ++ wnd ys i m) ++ [v1] /\ ~ In x1 xs /\
+                   @s_interpolate RNum (xs, ys) x1 = Ok (Some v1) /\ (i + m < length xs)%nat /\ (1 <= i + m)%nat /\
+                   nth (i + m - 1) xs 0 < x1 < nth (i + m) xs 0)).
+  Proof.
+    assert (Hpos : (0 < length xs)%nat) by (destruct xs; [congruence | cbn; lia]).
+    pose proof (last_nth0 xs Hne) as Elast.
+    assert (Hdom0 : nth 0 xs 0 <= x0 <= last xs 0) by lra.
+    destruct (locate xs Hs x0 Hne Hdom0) as [(a & Ha & E0) | (j & Hj & Hb0 & Hcb0 & Hnot0)].
+    - (* x0 is the knot a *)
+      destruct (tw_spec xs ys x1 Hlen (length xs - a) a eq_refl ltac:(lia)) as (m & Hm & Et & Hle & Hgt).
+      assert (Hm1 : (1 <= m)%nat).
+      { destruct m as [|m']; [|lia]. exfalso. rewrite Nat.add_0_r in Hgt. pose proof (Hgt Ha). lra. }
+      assert (Hstart : @s_between RNum (xs, ys) x0 x1 = finish xs ys x1 [] [] (wnd xs a m) (wnd ys a m)).
+      { unfold s_between. rewrite E0 at 1. rewrite (bsearch_knot xs Hs a Ha). cbv beta iota zeta. rn. rewrite Et. reflexivity. }
+      destruct (finish_ok xs ys Hs Hlen Hne x0 x1 H0 H01 H1 [] [] a m) as (X & Y & EF & Hshape & Hform).
+      + exact Hm.
+      + cbn [app]. apply wnd_adj; assumption.
+      + cbn [app]. apply wnd_onG; assumption.
+      + cbn [app]. destruct m; [lia | rewrite wnd_S; discriminate].
+      + cbn [app]. rewrite wnd_nth by lia. rewrite Nat.add_0_r. symmetry. exact E0.
+      + cbn [app]. intros e He. apply in_wnd in He. destruct He as (k & Hk & ->). apply Hle. exact Hk.
+      + cbn [app]. intros k Hk. rewrite wnd_last by lia. apply sinc_le; [exact Hs | lia | lia].
+      + intros k Hk Hkl. destruct (Nat.eq_dec k (a + m)) as [->|Hneq]; [apply Hgt; exact Hkl|].
+        pose proof (Hgt ltac:(lia)). pose proof (sinc_lt xs Hs (a + m) k ltac:(lia) Hkl). lra.
+      + exists a, m, [], [], X, Y. split; [rewrite Hstart; exact EF|]. split; [exact Hshape|]. split; [exact Hm|].
+        split; [left; repeat split; try reflexivity; [exact Ha | symmetry; exact E0]|].
+        cbn [app] in Hform. destruct Hform as [(EX & EY & El) | (v & EX & EY & Hlt & Ev)].
+        * left. rewrite wnd_last in El by lia. repeat split; assumption.
+        * right. exists v. rewrite wnd_last in Hlt by lia.
+          assert (Hnot1 : ~ In x1 xs).
+          { intros Hin. apply In_nth with (d := 0) in Hin. destruct Hin as (q & Hq & Eq).
+            destruct (Nat.lt_ge_cases q (a + m)) as [Hlt' | Hge].
+            - pose proof (sinc_le xs Hs q (a + m - 1) ltac:(lia) ltac:(lia)). lra.
+            - destruct (Nat.eq_dec q (a + m)) as [->|Hneq]; [pose proof (Hgt Hq); lra|].
+              pose proof (Hgt ltac:(lia)). pose proof (sinc_lt xs Hs (a + m) q ltac:(lia) Hq). lra. }
+          assert (Hlt2 : (a + m < length xs)%nat).
+          { destruct (Nat.eq_dec (a + m) (length xs)) as [E|N]; [|lia]. exfalso. rewrite Elast in H1. replace (length xs - 1)%nat with (a + m - 1)%nat in H1 by lia. lra. }
+          cbn [app]. repeat split; try assumption; try lia. apply Hgt. exact Hlt2.
+    - (* x0 lies strictly inside segment j *)
+      set (v0 := ell xs ys j x0).
+      assert (Ev0 : @s_interpolate RNum (xs, ys) x0 = Ok (Some v0)) by (apply eval_seg; [exact Hs | exact Hlen | exact Hj | lra]).
+      destruct (tw_spec xs ys x1 Hlen (length xs - S j) (S j) eq_refl ltac:(lia)) as (m & Hm & Et & Hle & Hgt).
+      assert (Hstart : @s_between RNum (xs, ys) x0 x1 = finish xs ys x1 [x0] [v0] (wnd xs (S j) m) (wnd ys (S j) m)).
+      { unfold s_between. rewrite (bsearch_between xs x0 Hnot0), Hcb0. cbv beta iota zeta. rewrite Ev0. cbn [opt_or_nan]. cbv beta iota zeta. rn. rewrite Et. reflexivity. }
+      assert (Hgap0 : (1 <= m)%nat -> gapP xs x0 (nth (S j) xs 0)).
+      { intros _. split; [lra|]. intros k Hk [A B]. destruct (Nat.le_gt_cases k j) as [Hkj | Hkj].
+        - pose proof (sinc_le xs Hs k j Hkj ltac:(lia)). lra.
+        - pose proof (sinc_le xs Hs (S j) k ltac:(lia) Hk). lra. }
+      destruct (finish_ok xs ys Hs Hlen Hne x0 x1 H0 H01 H1 [x0] [v0] (S j) m) as (X & Y & EF & Hshape & Hform).
+      + exact Hm.
+      + change ([x0] ++ wnd xs (S j) m) with (x0 :: wnd xs (S j) m). destruct m as [|m']; [constructor|].
+        rewrite wnd_S. constructor; [apply Hgap0; lia|]. rewrite <- wnd_S. apply wnd_adj; assumption.
+      + change ([x0] ++ wnd xs (S j) m) with (x0 :: wnd xs (S j) m). change ([v0] ++ wnd ys (S j) m) with (v0 :: wnd ys (S j) m).
+        constructor; [split; [lra | exact Ev0] | apply wnd_onG; assumption].
+      + discriminate.
+      + reflexivity.
+      + intros e [<- | He]; [lra|]. apply in_wnd in He. destruct He as (k & Hk & ->). apply Hle. exact Hk.
+      + intros k Hk. destruct m as [|m'].
+        * cbn [wnd seq map app last]. rewrite Nat.add_0_r in Hk. pose proof (sinc_le xs Hs k j ltac:(lia) ltac:(lia)). lra.
+        * rewrite last_app_ne by (rewrite wnd_S; discriminate). rewrite wnd_last by lia. apply sinc_le; [exact Hs | lia | lia].
+      + intros k Hk Hkl. destruct (Nat.eq_dec k (S j + m)) as [->|Hneq]; [apply Hgt; exact Hkl|].
+        pose proof (Hgt ltac:(lia)). pose proof (sinc_lt xs Hs (S j + m) k ltac:(lia) Hkl). lra.
+      + exists (S j), m, [x0], [v0], X, Y. split; [rewrite Hstart; exact EF|]. split; [exact Hshape|]. split; [exact Hm|].
+        split.
+        { right. exists v0. replace (S j - 1)%nat with j by lia. repeat split; try reflexivity; try assumption; try lia; try lra. }
+        assert (HlastX1 : last ([x0] ++ wnd xs (S j) m) 0 = if (m =? 0)%nat then x0 else nth (S j + m - 1) xs 0).
+        { destruct m as [|m']; [reflexivity|]. rewrite last_app_ne by (rewrite wnd_S; discriminate). rewrite wnd_last by lia. reflexivity. }
+        destruct Hform as [(EX & EY & El) | (v & EX & EY & Hlt & Ev)].
+        * left. rewrite HlastX1 in El. destruct m as [|m']; [cbn in El; lra|]. cbn [Nat.eqb] in El. repeat split; try assumption. lia.
+        * right. exists v. rewrite HlastX1 in Hlt.
+          assert (Hlt2 : (S j + m < length xs)%nat).
+          { destruct (Nat.eq_dec (S j + m) (length xs)) as [E|N]; [|lia]. exfalso.
+            destruct m as [|m']; [lia|]. cbn [Nat.eqb] in Hlt. rewrite Elast in H1. replace (length xs - 1)%nat with (S j + S m' - 1)%nat in H1 by lia. lra. }
+          assert (Hprev : nth (S j + m - 1) xs 0 < x1).
+          { destruct m as [|m']; [|exact Hlt]. replace (S j + 0 - 1)%nat with j by lia. lra. }
+          assert (Hnot1 : ~ In x1 xs).
+          { intros Hin. apply In_nth with (d := 0) in Hin. destruct Hin as (q & Hq & Eq).
+            destruct (Nat.lt_ge_cases q (S j + m)) as [Hlt' | Hge].
+            - pose proof (sinc_le xs Hs q (S j + m - 1) ltac:(lia) ltac:(lia)). lra.
+            - destruct (Nat.eq_dec q (S j + m)) as [->|Hneq]; [pose proof (Hgt Hq); lra|].
+              pose proof (Hgt ltac:(lia)). pose proof (sinc_lt xs Hs (S j + m) q ltac:(lia) Hq). lra. }
+          repeat split; try assumption; try lia. apply Hgt. exact Hlt2.
+  Qed.
+
+  (* a slice has its ends exactly at the requested bounds and evaluates like its parent on [x0, x1] *)
+  Theorem between_ok :
+    exists X Y, @s_between RNum (xs, ys) x0 x1 = Ok (X, Y) /\
+      nth 0 X 0 = x0 /\ last X 0 = x1 /\ strictly_increasing X /\ length Y = length X /\
+      forall x, x0 <= x <= x1 -> @s_interpolate RNum (X, Y) x = @s_interpolate RNum (xs, ys) x.
+  Proof.
+    destruct between_form as (i & m & hx & hy & X & Y & E & [Hadj HG Hf Hl H2] & _).
+    exists X, Y. split; [exact E|]. split; [exact Hf|]. split; [exact Hl|].
+    pose proof (graph_refines xs ys X Y Hs Hlen Hne Hadj HG H2) as Href.
+    split; [apply Href|]. split; [apply Href|].
+    intros x Hx. apply (refines_eval xs ys X Y Hs Hlen Href). rewrite Hf, Hl. exact Hx.
+  Qed.
+End Between2.
+
+(* ---- areas ---- *)
+Definition half : R := @nlit RNum 5 (-1).
+Definition trap (xa ya xb yb : R) : R := (xb - xa) * (ya + yb) * half.
+Definition sumR (l : list R) : R := fold_right Rplus 0 l.
+
+Lemma fold_left_plus (l : list R) (a : R) : fold_left Rplus l a = a + sumR l.
+Proof. revert a. induction l as [|v l IH]; intros a; cbn [fold_left sumR fold_right]; [lra|]. rewrite IH. unfold sumR. lra. Qed.
+
+Lemma area_sum (X Y : list R) : @s_area_under RNum (X, Y) = sumR (@areas RNum X Y).
+Proof. unfold s_area_under. cbn [fst snd]. rn. change (@n0 RNum) with 0. rewrite fold_left_plus. lra. Qed.
+
+Lemma areas_cons2 xa xb (l : list R) ya yb (m : list R) :
+  @areas RNum (xa :: xb :: l) (ya :: yb :: m) = trap xa ya xb yb :: @areas RNum (xb :: l) (yb :: m).
+Proof. reflexivity. Qed.
+
+Lemma areas_join : forall (l1 m1 : list R) a b l2 m2, length l1 = length m1 ->
+  sumR (@areas RNum (l1 ++ [a]) (m1 ++ [b])) + sumR (@areas RNum (a :: l2) (b :: m2)) =
+  sumR (@areas RNum (l1 ++ a :: l2) (m1 ++ b :: m2)).
+Proof.
+  induction l1 as [|x l1 IH]; intros m1 a b l2 m2 Hl; destruct m1 as [|y m1]; try discriminate.
+  - cbn [app]. change (@areas RNum [a] [b]) with (@nil R). cbn [sumR fold_right]. lra.
+  - cbn [app]. destruct l1 as [|x' l1]; destruct m1 as [|y' m1]; try discriminate.
+    + cbn [app]. rewrite !areas_cons2. cbn [sumR fold_right]. change (@areas RNum [a] [b]) with (@nil R). cbn [fold_right]. unfold sumR. lra.
+    + cbn [app]. rewrite !areas_cons2. cbn [sumR fold_right].
+      specialize (IH (y' :: m1) a b l2 m2 ltac:(cbn in *; lia)). cbn [app] in IH. unfold sumR in *. lra.
+Qed.
+
+Section Areas.
+  Variables xs ys : list R.
+  Definition T (k : nat) : R := trap (nth k xs 0) (nth k ys 0) (nth (S k) xs 0) (nth (S k) ys 0).
+  Fixpoint W (a n : nat) : R :=
+    match n with
+    | O => 0
+    | S n' => match n' with O => 0 | S _ => T a + W (S a) n' end
+    end.
+
+  Lemma W_SS a n : W a (S (S n)) = T a + W (S a) (S n).
+  Proof. reflexivity. Qed.
+
+  Lemma areas_wnd : forall n a, sumR (@areas RNum (wnd xs a n) (wnd ys a n)) = W a n.
+  Proof.
+    induction n as [|n IH]; intros a; [reflexivity|]. destruct n as [|n]; [reflexivity|].
+    rewrite W_SS, <- IH. rewrite (wnd_S xs a), (wnd_S ys a), (wnd_S xs (S a)), (wnd_S ys (S a)), areas_cons2.
+    cbn [sumR fold_right]. unfold T. reflexivity.
+  Qed.
+
+  Lemma W_split : forall p a q, (1 <= p)%nat -> (1 <= q)%nat -> W a (p + q) = W a p + T (a + p - 1) + W (a + p) q.
+  Proof.
+    induction p as [|p IH]; intros a q Hp Hq; [lia|]. destruct p as [|p].
+    - destruct q as [|q]; [lia|]. change (1 + S q)%nat with (S (S q)). rewrite W_SS. cbn [W]. replace (a + 1 - 1)%nat with a by lia. replace (a + 1)%nat with (S a) by lia. lra.
+    - change (S (S p) + q)%nat with (S (S (p + q))). rewrite !W_SS. replace (S (p + q)) with (S p + q)%nat by lia.
+      rewrite (IH (S a) q ltac:(lia) Hq). replace (S a + S p - 1)%nat with (a + S (S p) - 1)%nat by lia. replace (S a + S p)%nat with (a + S (S p))%nat by lia. lra.
+  Qed.
+
+  Lemma W_snoc a p : (1 <= p)%nat -> W a (S p) = W a p + T (a + p - 1).
+  Proof. intros Hp. replace (S p) with (p + 1)%nat by lia. rewrite (W_split p a 1 Hp ltac:(lia)). cbn [W]. lra. Qed.
+
+  (* window followed by one more point *)
+  Lemma areas_wnd_snoc a n x v : (1 <= n)%nat ->
+    sumR (@areas RNum (wnd xs a n ++ [x]) (wnd ys a n ++ [v])) = W a n + trap (nth (a + n - 1) xs 0) (nth (a + n - 1) ys 0) x v.
+  Proof.
+    intros Hn. destruct n as [|n]; [lia|]. rewrite (wnd_snoc xs), (wnd_snoc ys), <- !app_assoc. cbn [app].
+    rewrite <- (areas_join (wnd xs a n) (wnd ys a n)) by (rewrite !wnd_length; reflexivity).
+    rewrite <- (wnd_snoc xs), <- (wnd_snoc ys), areas_wnd, areas_cons2. cbn [sumR fold_right].
+    change (@areas RNum [x] [v]) with (@nil R). cbn [fold_right]. replace (a + S n - 1)%nat with (a + n)%nat by lia. lra.
+  Qed.
+
+  (* one point followed by a window *)
+  Lemma areas_cons_wnd a n x v : (1 <= n)%nat ->
+    sumR (@areas RNum (x :: wnd xs a n) (v :: wnd ys a n)) = trap x v (nth a xs 0) (nth a ys 0) + W a n.
+  Proof.
+    intros Hn. destruct n as [|n]; [lia|]. rewrite (wnd_S xs), (wnd_S ys), areas_cons2. cbn [sumR fold_right].
+    rewrite <- (wnd_S xs), <- (wnd_S ys). fold (sumR (@areas RNum (wnd xs a (S n)) (wnd ys a (S n)))). rewrite areas_wnd. reflexivity.
+  Qed.
+
+  Lemma trap_split j x : nth j xs 0 <> nth (S j) xs 0 ->
+    trap (nth j xs 0) (nth j ys 0) x (ell xs ys j x) + trap x (ell xs ys j x) (nth (S j) xs 0) (nth (S j) ys 0) = T j.
+  Proof. intros H. unfold T, trap, ell. field. lra. Qed.
+End Areas.
+
+(* ---- Series1::split_at_x strictly inside the domain ---- *)
+Section Split.
+  Variables xs ys : list R.
+  Hypothesis Hs : strictly_increasing xs.
+  Hypothesis Hlen : length ys = length xs.
+  Hypothesis Hne : xs <> [].
+  Variable x : R.
+  Hypothesis Hlo : nth 0 xs 0 < x.
+  Hypothesis Hhi : x < last xs 0.
+
+  Theorem split_area :
+    exists XL YL XR YR,
+      @s_split_at_x RNum (xs, ys) x = Ok (Some (XL, YL), Some (XR, YR)) /\
+      nth 0 XL 0 = nth 0 xs 0 /\ last XL 0 = x /\ nth 0 XR 0 = x /\ last XR 0 = last xs 0 /\
+      (forall t, nth 0 xs 0 <= t <= x -> @s_interpolate RNum (XL, YL) t = @s_interpolate RNum (xs, ys) t) /\
+      (forall t, x <= t <= last xs 0 -> @s_interpolate RNum (XR, YR) t = @s_interpolate RNum (xs, ys) t) /\
+      @s_area_under RNum (XL, YL) + @s_area_under RNum (XR, YR) = @s_area_under RNum (xs, ys).
+  Proof.
+    assert (Hpos : (0 < length xs)%nat) by (destruct xs; [congruence | cbn; lia]).
+    pose proof (last_nth0 xs Hne) as Elast.
+    destruct (between_form xs ys Hs Hlen Hne (nth 0 xs 0) x ltac:(lra) Hlo ltac:(lra))
+      as (iL & mL & hxL & hyL & XL & YL & EL & ShL & HmL & HheadL & HtailL).
+    destruct (between_form xs ys Hs Hlen Hne x (last xs 0) ltac:(lra) Hhi ltac:(lra))
+      as (iR & mR & hxR & hyR & XR & YR & ER & ShR & HmR & HheadR & HtailR).
+    exists XL, YL, XR, YR.
+    assert (Esplit : @s_split_at_x RNum (xs, ys) x = Ok (Some (XL, YL), Some (XR, YR))).
+    { unfold s_split_at_x. cbn [fst]. destruct xs as [|xf rest] eqn:Ex; [congruence|]. rewrite <- Ex in *. rn. change (@n0 RNum) with 0.
+      assert (B1 : Rlt_bool (last xs 0) x = false) by (apply Rltb_false; lra).
+      assert (B2 : Rlt_bool x xf = false) by (apply Rltb_false; rewrite Ex in Hlo; cbn [nth] in Hlo; lra).
+      rewrite B1, B2. replace xf with (nth 0 xs 0) by (rewrite Ex; reflexivity). rewrite EL, ER. reflexivity. }
+    split; [exact Esplit|].
+    destruct ShL as [AdjL GL FL LL TwoL]. destruct ShR as [AdjR GR FR LR TwoR].
+    split; [exact FL|]. split; [exact LL|]. split; [exact FR|]. split; [exact LR|].
+    pose proof (graph_refines xs ys XL YL Hs Hlen Hne AdjL GL TwoL) as RefL.
+    pose proof (graph_refines xs ys XR YR Hs Hlen Hne AdjR GR TwoR) as RefR.
+    split; [intros t Ht; apply (refines_eval xs ys XL YL Hs Hlen RefL); rewrite FL, LL; exact Ht|].
+    split; [intros t Ht; apply (refines_eval xs ys XR YR Hs Hlen RefR); rewrite FR, LR; exact Ht|].
+    (* areas *)
+    rewrite !area_sum.
+    assert (Ewhole : sumR (@areas RNum xs ys) = W xs ys 0 (length xs)).
+    { rewrite <- (areas_wnd xs ys). rewrite wnd_all. rewrite <- Hlen, wnd_all. reflexivity. }
+    rewrite Ewhole.
+    (* left piece: starts at knot 0 *)
+    destruct HheadL as [(-> & -> & HiL & EiL) | (v0 & _ & _ & Hnot & _)]; [|exfalso; apply Hnot; apply nth_In; exact Hpos].
+    assert (iL = 0%nat) by (apply (sinc_inj xs Hs); [exact HiL | exact Hpos | exact EiL]). subst iL.
+    (* right piece: ends at the last knot *)
+    destruct HtailR as [(EXR & EYR & HmR1 & ElastR) | (v1 & _ & _ & Hnot & _)];
+      [|exfalso; apply Hnot; rewrite Elast; apply nth_In; lia].
+    assert (HendR : (iR + mR = length xs)%nat).
+    { rewrite Elast in ElastR. apply (sinc_inj xs Hs) in ElastR; lia. }
+    cbn [app Nat.add] in HtailL.
+    destruct HtailL as [(EXL & EYL & HmL1 & ElastL) | (v1 & EXL & EYL & Hnot1 & Ev1 & HltL & _ & HbL)].
+    - (* x is the knot mL - 1 *)
+      destruct HheadR as [(-> & -> & HiR & EiR) | (v0 & _ & _ & Hnot & _)];
+        [|exfalso; apply Hnot; rewrite <- ElastL; apply nth_In; lia].
+      assert (iR = (mL - 1)%nat) by (apply (sinc_inj xs Hs); [exact HiR | lia | rewrite EiR, <- ElastL; f_equal; lia]). subst iR.
+      cbn [app] in EXR, EYR. subst XL YL XR YR. rewrite !areas_wnd.
+      destruct (Nat.eq_dec mL 1) as [->|Hm1].
+      + cbn [W]. replace (1 - 1)%nat with 0%nat in * by lia. replace mR with (length xs) by lia. lra.
+      + rewrite <- HendR. rewrite (W_split xs ys (mL - 1) 0 mR ltac:(lia) HmR1).
+        replace mL with (S (mL - 1)) at 1 by lia. rewrite (W_snoc xs ys 0 (mL - 1) ltac:(lia)). cbn [Nat.add]. lra.
+    - (* x lies strictly inside segment mL - 1 *)
+      destruct HheadR as [(_ & _ & HiR & EiR) | (v0 & -> & -> & _ & EcbR & HiR & HbR & Ev0)];
+        [exfalso; apply Hnot1; rewrite <- EiR; apply nth_In; exact HiR|].
+      assert (EiR : iR = mL).
+      { destruct (Nat.lt_trichotomy iR mL) as [H | [H | H]]; [|exact H|].
+        - pose proof (sinc_le xs Hs iR (mL - 1) ltac:(lia) ltac:(lia)). lra.
+        - pose proof (sinc_le xs Hs mL (iR - 1) ltac:(lia) ltac:(lia)). lra. }
+      subst XL YL XR YR. clear EcbR. subst iR.
+      assert (Ev : v1 = ell xs ys (mL - 1) x).
+      { pose proof (eval_seg xs ys Hs Hlen (mL - 1) x) as P. replace (S (mL - 1)) with mL in P by lia.
+        rewrite P in Ev1 by (try lia; lra). inversion Ev1. reflexivity. }
+      cbn [app].
+      rewrite (areas_wnd_snoc xs ys 0 mL x v1 ltac:(lia)), (areas_cons_wnd xs ys mL mR x v0 HmR1).
+      rewrite <- HendR, (W_split xs ys mL 0 mR ltac:(lia) HmR1). cbn [Nat.add].
+      rewrite <- (trap_split xs ys (mL - 1) x) by (replace (S (mL - 1)) with mL by lia; lra).
+      rewrite Ev0, Ev. replace (S (mL - 1)) with mL by lia. lra.
+  Qed.
+End Split.
